@@ -141,7 +141,17 @@ def loop_features(paths, valuekey_pred):
 
 
 def rule_b(ck, u, eng, P):
-    if 'varint_decode' in P and 'varint_from_source' in P:
+    def index_form(paths):
+        # the decoder rule reads loops that number their octets by an index counting up from 0
+        from .common import loop_counter
+        for q in paths:
+            if q.end == 'loopback' and q.loops:
+                return any(pre is not None and sym.is_c(pre, 0) for k, h, pre in loop_counter(paths, q))
+        return False
+    if 'varint_decode' in P and 'varint_from_source' in P and not (index_form(P['varint_decode']) and index_form(P['varint_from_source'])):
+        ck.broken('C14.b', 'decoders', cast.where(u.fn('varint_decode')),
+                  'a decoder loop does not number its octets by an index counting up from 0; the rule reads that form only')
+    elif 'varint_decode' in P and 'varint_from_source' in P:
         fa = loop_features(P['varint_decode'], lambda k: k[0] == 'f' and k[1] == ('v', 'n'))
         fb = loop_features(P['varint_from_source'], lambda k: k[0] == 'f' and k[1] == ('v', 'n'))
         diffs = [k for k in fa if fa[k] != fb[k] and k != 'err_inloop']
